@@ -1,8 +1,139 @@
-import Pyrtma.Spec.Manager
+import Pyrtma.Proofs.Manager
+/-!
+# C07 — a departed client leaves no trace
+
+Theorems about `removeModule` (the model of `remove_module`, with the CLIENT_CLOSED forward and everything nested in it)
+and about the paths that lead to it, for every state and every nested forward meeting the forward contract.
+-/
 namespace Pyrtma.C07
 open Pyrtma.Mgr
 
-/-- placeholder while the proofs are being written (replaced below) -/
-theorem wip : True := trivial
+theorem idxGet_discard_self (idx : List (Int × List Nat)) (t : Int) (u : Nat) : u ∉ idxGet (idxDiscard idx t u) t := by
+  unfold idxGet idxDiscard
+  induction idx with
+  | nil => simp
+  | cons p idx ih =>
+    simp only [List.map_cons, List.find?_cons]
+    cases hp : (p.1 == t)
+    · simp only [Bool.false_eq_true, if_false, hp]; exact ih
+    · simp [hp]
+
+theorem idxGet_discards_self (ts : List Int) (idx : List (Int × List Nat)) (t : Int) (u : Nat) (ht : t ∈ ts) :
+    u ∉ idxGet (ts.foldl (fun i t => idxDiscard i t u) idx) t := by
+  induction ts generalizing idx with
+  | nil => cases ht
+  | cons a ts ih =>
+    simp only [List.foldl_cons]
+    by_cases hin : t ∈ ts
+    · exact ih _ hin
+    · have : t = a := by cases ht with | head => rfl | tail _ h => exact absurd h hin
+      subst this
+      intro hmem
+      exact idxGet_discard_self idx t u (idxGet_discards ts _ t u u hmem)
+
+/-- **Removed is gone, in the same step.**  After `remove_module(u)` — whatever the CLIENT_CLOSED forward nested in it
+did — `u` is in no table: not in the module table (so its id and name are free for the very next CONNECT, and no later
+frame can be routed or acknowledged to it: C01's and C19's recipients are found through the table), not in the logger
+set, and in the subscriber set of none of the types it was subscribed to. -/
+theorem removed_is_gone (cfg : Cfg) {fwd : Fwd} {B : Body → Bool} (hB : Tag cfg B) (hf : FwdOK B fwd) (s : State)
+    (u : Nat) (m : Module) (hm : s.find u = some m) :
+    (removeModule cfg fwd s u).find u = none ∧ (∀ x ∈ (removeModule cfg fwd s u).mods, x.uid ≠ u) ∧
+    u ∉ (removeModule cfg fwd s u).loggers ∧ (∀ t ∈ m.subs, u ∉ idxGet (removeModule cfg fwd s u).idx t) := by
+  have hp := (hf (removePrep s u m) (closedFrame cfg { m with connected := false })
+    (by simp [closedFrame, mgrFrame, hB.1])).1
+  unfold removeModule
+  simp only [hm]
+  refine ⟨find_filter_eq _ _, fun x hx => by simpa using (List.mem_filter.mp hx).2, fun h => ?_, fun t ht h => ?_⟩
+  · have := hp.loggers u h
+    rw [removePrep_loggers] at this; simp at this
+  · have := hp.idx t u h
+    rw [removePrep_idx] at this
+    exact idxGet_discards_self m.subs s.idx t u ht this
+
+/-- with the index consistent (`u` is listed only under types in its own `subs`), `u` is in *no* subscriber set at all -/
+theorem removed_from_every_type (cfg : Cfg) {fwd : Fwd} {B : Body → Bool} (hB : Tag cfg B) (hf : FwdOK B fwd) (s : State)
+    (u : Nat) (m : Module) (hm : s.find u = some m) (hcons : ∀ t, u ∈ idxGet s.idx t → t ∈ m.subs) (t : Int) :
+    u ∉ idxGet (removeModule cfg fwd s u).idx t := by
+  by_cases ht : t ∈ m.subs
+  · exact (removed_is_gone cfg hB hf s u m hm).2.2.2 t ht
+  · intro h
+    apply ht; apply hcons
+    have hp := (hf (removePrep s u m) (closedFrame cfg { m with connected := false })
+      (by simp [closedFrame, mgrFrame, hB.1])).1
+    unfold removeModule at h
+    simp only [hm] at h
+    have h2 := hp.idx t u h
+    rw [removePrep_idx] at h2
+    exact idxGet_discards m.subs s.idx t u u h2
+
+/-- **A failed write removes the module at once** (read side or write side makes no difference to what follows): after
+`trySend` met a `ConnectionError` on `u`'s socket, `u` is no longer in the table — before the error is logged and before
+the FAILED_MESSAGE is forwarded, so neither can be routed to it. -/
+theorem failed_write_removes_at_once (cfg : Cfg) (s : State) (u : Nat) (f : Frame) (m : Module) (fuel : Nat)
+    (hm : s.find u = some m) (hc : m.closed = false) (hfl : failOf s u ≠ none) (hcr : s.crashed = none) :
+    (trySend cfg (forward cfg fuel) s u f).find u = none := by
+  have hB := tag_data cfg 0
+  have hf := forward_ok cfg hB fuel
+  have hok : (sendRaw s u f).2 = false := by
+    rw [sendRaw_ok]; unfold canTake; simp [hm]
+    cases h : failOf s u with
+    | none => exact absurd h hfl
+    | some _ => simp
+  have hnc : (sendRaw s u f).1.crashed.isSome = false := by
+    unfold sendRaw; simp only [hm, hc, Bool.false_eq_true, if_false]
+    have hfo : failOf (s.upd u fun m => { m with msgCount := m.msgCount + 1 }) u = failOf s u := rfl
+    rw [hfo]
+    cases h : failOf s u with
+    | none => exact absurd h hfl
+    | some x => cases x <;> simp [State.emit, State.upd, hcr]
+  unfold trySend
+  simp only [hm, hok, Bool.false_eq_true, if_false, hnc]
+  -- after sendRaw the module is still there; removeModule drops it; log + notice never bring anything back
+  obtain ⟨m1, hm1⟩ : ∃ m1, (sendRaw s u f).1.find u = some m1 := by
+    unfold sendRaw; simp only [hm, hc, Bool.false_eq_true, if_false]
+    have hfo : failOf (s.upd u fun m => { m with msgCount := m.msgCount + 1 }) u = failOf s u := rfl
+    rw [hfo]
+    cases h : failOf s u with
+    | none => exact absurd h hfl
+    | some x =>
+      cases x <;> simp only [find_emit] <;>
+        exact ⟨_, find_upd_self s u (fun m => { m with msgCount := m.msgCount + 1 }) (fun _ => rfl) hm⟩
+  have hgone := (removed_is_gone cfg hB hf (sendRaw s u f).1 u m1 hm1).1
+  have h2 := (logAt_ok cfg hB hf 40 (removeModule cfg (forward cfg fuel) (sendRaw s u f).1 u)).1.gone u hgone
+  exact (failedMsg_ok cfg hB hf _ m.modId f).1.gone u h2
+
+/-- **Every way of leaving on the read side ends in `remove_module(sender)`**: DISCONNECT, a reset while reading the
+header or the payload, EOF inside the header or inside the payload, a declared length that can not be read. -/
+theorem read_side_departures (cfg : Cfg) (s : State) (r : Read) (m : Module)
+    (hm : s.find r.uid = some m) (hcr : s.crashed = none) :
+    (r.hdrErr = true → readOne cfg s r = logAt cfg (fwdTop cfg) 40 (removeModule cfg (fwdTop cfg) (s.emit (.rd r.uid)) r.uid)) ∧
+    (r.hdrErr = false → r.hdrOk = false →
+      readOne cfg s r = logAt cfg (fwdTop cfg) 30 (removeModule cfg (fwdTop cfg) (s.emit (.rd r.uid)) r.uid)) ∧
+    (r.hdrErr = false → r.hdrOk = true → (r.h.nbytes < 0 ∨ r.h.nbytes > cfg.bufMax) →
+      readOne cfg s r = logAt cfg (fwdTop cfg) 30 (removeModule cfg (fwdTop cfg) (s.emit (.rd r.uid)) r.uid)) := by
+  refine ⟨fun h1 => ?_, fun h1 h2 => ?_, fun h1 h2 h3 => ?_⟩
+  · unfold readOne; simp [hcr, hm, h1]
+  · unfold readOne; simp [hcr, hm, h1, h2]
+  · unfold readOne; simp only [hcr, Option.isSome_none, Bool.false_eq_true, if_false, hm, h1, h2, Bool.not_true]
+    have : (decide (r.h.nbytes < 0) || decide (r.h.nbytes > cfg.bufMax)) = true := by
+      rcases h3 with h | h <;> simp [h]
+    simp [this]
+
+/-- the CLIENT_CLOSED notice describes the departed module: its uid, pid, id, logger and uniqueness flags and name -/
+theorem closed_notice_describes (cfg : Cfg) (m : Module) :
+    (closedFrame cfg m).body = .closed m.uid m.pid m.modId m.isLogger m.unique m.name ∧
+    (closedFrame cfg m).mtype = cfg.mtClosed ∧ (closedFrame cfg m).src = 0 ∧ (closedFrame cfg m).dest = 0 :=
+  ⟨rfl, rfl, rfl, rfl⟩
+
+/-! ### Non-vacuity -/
+def exState : State :=
+  { mods := [{ uid := 0, connected := true }, { uid := 1, modId := 10, connected := true, subs := [5000], isLogger := true },
+             { uid := 2, modId := 11, connected := true, subs := [33] }],
+    idx := [(5000, [1]), (33, [2])], loggers := [1], wlist := [1, 2], nextUid := 2 }
+example : (removeModule {} (fwdTop {}) exState 1).mods.map (·.uid) = [0, 2] ∧
+          (removeModule {} (fwdTop {}) exState 1).loggers = [] ∧
+          idxGet (removeModule {} (fwdTop {}) exState 1).idx 5000 = [] ∧
+          (removeModule {} (fwdTop {}) exState 1).out =
+            [.close 1, .send 2 1 (closedFrame {} { uid := 1, modId := 10, subs := [5000], isLogger := true })] := by decide
 
 end Pyrtma.C07
